@@ -24,6 +24,7 @@ type world struct {
 	b         *lib.Origin // TLS HTTP proxy
 	s         *lib.Socks5
 	ca        *lib.CA
+	deadAddr  string            // nothing listens here
 	names     map[string]string // host:port as a client may spell it -> listener address
 }
 
@@ -79,6 +80,9 @@ func newWorld() *world {
 	w.names["o2.test:443"] = w.ot.Addr
 	w.names["direct.corp:443"] = w.ot.Addr
 	w.names["localhost:"+w.o1.Port()] = w.o1.Addr
+	dl, _ := net.Listen("tcp", "127.0.0.9:0")
+	w.deadAddr = dl.Addr().String()
+	dl.Close()
 	return w
 }
 
@@ -200,6 +204,13 @@ func setup(run *lib.Run, r *lib.RNG, idx int) *conf {
 			c.rules = append(c.rules, rule{"127.0.0.5", w.a.Port(), "", ""})
 		}
 	}
+	// a chained pair: rules are applied once to the hop's address, never to their own result.
+	// dead.test:80 is mapped to a closed port; a second rule maps that closed port to O2.
+	{
+		dh, dp, _ := net.SplitHostPort(w.deadAddr)
+		oh, op, _ := net.SplitHostPort(w.o2.Addr)
+		c.rules = append(c.rules, rule{"dead.test", "80", dh, dp}, rule{dh, dp, oh, op})
+	}
 	for name, addr := range w.names {
 		h, p, _ := net.SplitHostPort(name)
 		dh, dp, _ := net.SplitHostPort(addr)
@@ -254,6 +265,7 @@ func setup(run *lib.Run, r *lib.RNG, idx int) *conf {
 			tc.CACertFiles = []string{lib.DataURI(w.ca.CertPEM)}
 			tc.RedirectFunc = forwarder.DialRedirectFromHostPortPairs(pairs)
 			tc.DialTimeout = 2 * time.Second
+			tc.Retry = forwarder.DialRetryConfig{Attempts: 2, Backoff: 5 * time.Millisecond} // the retry path re-dials the same address
 		},
 	})
 	if err != nil {
@@ -366,6 +378,7 @@ func main() {
 	run.Floor("via_tls_proxy", 15)
 	run.Floor("via_socks5", 15)
 	run.Floor("direct_routes", 100)
+	run.Floor("dead_hop_checked", 10)
 	run.Finish()
 }
 
@@ -374,8 +387,9 @@ func runConf(run *lib.Run, r *lib.RNG, c *conf, base int) {
 	targets := []target{{"o1.test", "80"}, {"O1.TEST", "80"}, {"o2.test", "80"}, {"o1.test", "8080"}, {"direct.corp", "80"}, {"Direct.Corp", "80"},
 		{"127.0.0.2", w.o1.Port()}, {"127.0.0.3", w.o2.Port()}, {"localhost", w.o1.Port()}}
 	lib.Shuffle(r, targets)
+	targets = append([]target{{"dead.test", "80"}}, targets...)
 	k := 0
-	for _, t := range targets[:6] {
+	for _, t := range targets[:7] {
 		for _, kind := range []string{"http", "connect", "https"} {
 			if kind == "https" && (!c.mitm || strings.HasPrefix(t.host, "127.") || t.host == "localhost" || t.port != "80") {
 				continue
@@ -437,6 +451,13 @@ func (c *conf) oneRoute(run *lib.Run, r *lib.RNG, idx int, t target, kind string
 	wit := map[string]any{"config": c.sig(), "pac": c.pac, "direct_domains": c.direct, "connect_to": fmtRules(c.rules[:len(c.rules)-len(w.names)]), "target": hostport, "kind": kind, "expected_hop": hop, "expected_receiver": wantPeer}
 	if idx%900 == 0 {
 		run.Sample(wit)
+	}
+	if t.host == "dead.test" && hop != "direct" {
+		return // the scripted proxies cannot complete a tunnel to a name that maps nowhere
+	}
+	mustFailDead := hop == "direct" && t.host == "dead.test"
+	if mustFailDead {
+		hop = "fail-dead"
 	}
 	if t.host != strings.ToLower(t.host) && hop == "direct" && wantPeer == "" {
 		return // upper-case name dialled directly matches no literal connect-to rule: needs DNS, not generated
@@ -501,6 +522,13 @@ func (c *conf) oneRoute(run *lib.Run, r *lib.RNG, idx int, t target, kind string
 	wit["accepts_delta"] = delta
 	wit["socks_requests"] = fmt.Sprint(w.s.Requests())
 	wit["dial_log"] = c.p.DialLog()
+	if hop == "fail-dead" {
+		run.Count("dead_hop_checked", 1)
+		if echoed || len(delta) != 0 {
+			run.Violation("connect-to-applied-to-its-own-result", fmt.Sprintf("%s %s: the first matching connect-to rule maps the hop to a closed port, so the request must fail; instead listeners %v were contacted (status %d)", kind, hostport, delta, status), idx, wit)
+		}
+		return
+	}
 	if hop == "fail" {
 		run.Count("must_fail_checked", 1)
 		if echoed || status == 200 {
